@@ -35,7 +35,7 @@ native('C13.cursor', ['C13'], 'bounded', 'initial stream of <= 3 (thorough: <= 4
        'aquavm-air', 'air/src/execution_step/value_types/stream/recursive_stream.rs', 'cursor.rs',
        'verif_native_cursor::fold_visits_each_value_once',
        what='RecursiveStreamCursor::{met_fold_start, met_iteration_end} on the real Stream: the generations handed to the fold contain every stream value exactly once, including values appended while the fold runs')
-native('C27.roundtrip', ['C27'], 'bounded', 'codec, expected over 15 varint-length boundary values each, 5 payload bytes (1125 triples)',
+native('C27.roundtrip', ['C27'], 'bounded', 'codec, expected over 18 values each (varint-length boundaries and the codecs in use 0x0200, 0x0201, 0x0202), 5 payload bytes (1620 triples)',
        'air-interpreter-sede', 'crates/air-lib/interpreter-sede/src/multiformat.rs', 'multiformat_rt.rs',
        'verif_native_multiformat::multiformat_round_trip_on_boundaries',
        what='real unsigned_varint: decode_multiformat(encode_multiformat(v, codec), expected) = Ok(v) iff codec == expected else Err(Codec(codec)); truncated input is an error (the varint round-trip axiom of unit multiformat, on the grid)')
